@@ -105,7 +105,7 @@ HELPERS = [
     "import os", "from typing import Optional, Literal", "X = 3", "y: int = 5",
     "def helper(a, b=5):\n    return a", "def other(dataset_name, K=1):\n    '''Doc.'''\n    return K",
     "class Other(object):\n    def train(self, x):\n        return x\n\n    def run(self):\n        pass",
-    "class Outer:\n    class Inner:\n        z = 1\n\n    def method(self):\n        return 1",
+    "class Wrapper:\n    class Inner:\n        z = 1\n\n    def method(self):\n        return 1",
     "if __name__ == '__main__':\n    print(1)", "CONST = {'a': 1}", "def set_cli_args_helper(p):\n    return p",
 ]
 
